@@ -18,7 +18,7 @@ EXTENDS Naturals, Sequences, FiniteSets, TLC, Json
 
 CONSTANTS MaxLen,        \* longest option list
           MaxSecond,     \* longest option list of the second advertisement of an update vector
-          Part           \* "single" | "update"
+          Part           \* "single" | "update" | "many"
 
 P1 == [id |-> "pfxA", kind |-> "prefix", units |-> 4, plen |-> 64, onlink |-> TRUE, auto |-> TRUE,
        valid |-> 7200, pref |-> 1800, prefix |-> "2001:db8:1::"]
@@ -130,17 +130,22 @@ SingleVectors == {[first |-> None, h |-> HeaderFor(s), opts |-> s] : s \in Lists
 \* macChange: the second advertisement comes from another Ethernet source (a router whose MAC changes)
 UpdateVectors == {[first |-> [h |-> Headers[2], opts |-> f], h |-> HeaderFor(s), opts |-> s, macChange |-> mc] :
                      f \in {<<>>, Rich}, s \in Lists(MaxSecond), mc \in BOOLEAN}
-Init == v \in IF Part = "single" THEN SingleVectors ELSE UpdateVectors
+\* many routers: n distinct sources advertise the same content one after the other; afterwards the table must
+\* hold ALL n of them, each with the reference record (count classes around a plausible table bound of 8)
+ManyVectors == {[first |-> None, h |-> Headers[hi], opts |-> o, many |-> n] :
+                   n \in {1, 2, 8, 9, 12}, hi \in {1, 3}, o \in {<<>>, <<M1>>, <<L1, P1>>, <<P1, D1, S1>>}}
+Init == v \in IF Part = "single" THEN SingleVectors ELSE IF Part = "update" THEN UpdateVectors ELSE ManyVectors
 Next == UNCHANGED v
 Spec == Init /\ [][Next]_v
 
 \* the reference termination measure: the walk consumes the list item by item
-WalkTerminates == Len(v.opts) <= (IF Part = "single" THEN 40 ELSE MaxSecond)
+WalkTerminates == Len(v.opts) <= (IF Part = "update" THEN MaxSecond ELSE 40)
 
 Vector ==
   LET firstRef == IF v.first = None THEN None
                   ELSE [ref |-> RefOf(v.first.h, v.first.opts), mayDrop |-> MayDrop(v.first.opts)]
   IN [first |-> v.first, h |-> v.h, opts |-> v.opts, macChange |-> ("macChange" \in DOMAIN v /\ v.macChange),
+      many |-> IF "many" \in DOMAIN v THEN v.many ELSE 0,
       ref |-> RefOf(v.h, v.opts), mayDrop |-> MayDrop(v.opts), firstRef |-> firstRef]
 Export == PrintT(ToJson(Vector))
 =============================================================================
